@@ -14,7 +14,7 @@ p=json.load(open('$D/meta.json')).get('demo_path','sugardb/zz_demo_test.go')
 m=re.search(r'([A-Za-z0-9_./-]+_test\.go)',p)
 print(m.group(1) if m else 'sugardb/zz_demo_test.go')")
 DEMO_CMD=$(python3 -c "import json;print(json.load(open('$D/meta.json')).get('demo_cmd',''))")
-DEMO_SRC=$(ls $D/demo_test.go $D/demo*_test.go $D/demo*.go 2>/dev/null | head -1)
+DEMO_SRC=$D/demo_test.go; [ -f "$DEMO_SRC" ] || DEMO_SRC=$(ls $D/demo*_test.go $D/demo*.go 2>/dev/null | head -1)
 [ -z "$DEMO_SRC" ] && { echo "INVALID no demo file"; exit 1; }
 case "$DEMO_PATH" in /*) DEMO_PATH=${DEMO_PATH#*/repo/};; esac
 mkdir -p "$WT/$(dirname $DEMO_PATH)"; cp "$DEMO_SRC" "$WT/$DEMO_PATH"
